@@ -35,6 +35,7 @@ class St:
     pow_mode = "alg"   # 'alg' algebraic powers, 'uf' uninterpreted power functions
     fresh = 0
     notes = set()
+    snap_literals = False  # read float literals such as 0.4 at their decimal value 2/5
     absorb_eps = Fr(1, 10 ** 10)   # |c| <= eps added to a symbolic value is absorbed (0 disables)
 
     @classmethod
@@ -51,6 +52,7 @@ class St:
         cls.fresh = 0
         cls.notes = set()
         cls.absorb_eps = Fr(1, 10 ** 10)
+        cls.snap_literals = False
 
 
 def conc(x):
@@ -69,7 +71,12 @@ def tov(x):
         f = float(x)
         if f != f or f in (float("inf"), float("-inf")):
             raise ValueError("non-finite float constant in symbolic execution: %r" % f)
-        return Fr(f)
+        v = Fr(f)
+        if St.snap_literals and v.denominator != 1:
+            g = v.limit_denominator(10 ** 6)
+            if abs(g - v) <= Fr(4, 10 ** 16) * abs(v):
+                return g          # decimal literal read at its decimal value (<= 1 ulp away)
+        return v
     raise TypeError("cannot lift %r" % type(x))
 
 
@@ -579,11 +586,16 @@ def _exact_root(v, q):
     def iroot(n):
         if n == 0:
             return 0
-        r = int(round(n ** (1.0 / q)))
-        for c in (r - 1, r, r + 1):
-            if c >= 0 and c ** q == n:
-                return c
-        return None
+        if n.bit_length() > 4096:
+            return None
+        # integer Newton iteration for floor(n ** (1/q))
+        r = 1 << -(-n.bit_length() // q)
+        while True:
+            t = ((q - 1) * r + n // (r ** (q - 1))) // q
+            if t >= r:
+                break
+            r = t
+        return r if r ** q == n else None
     a, b = iroot(v.numerator), iroot(v.denominator)
     if a is None or b is None:
         return None
